@@ -67,7 +67,7 @@ use octseq::octets::Octets;
 use ring::{hkdf::KeyType, hmac, rand};
 
 use crate::base::header::HeaderSection;
-use crate::base::iana::{Class, Rcode, TsigRcode};
+use crate::base::iana::{Class, Rcode, Rtype, TsigRcode};
 use crate::base::message::Message;
 use crate::base::message_builder::{
     AdditionalBuilder, MessageBuilder, PushError,
@@ -1487,6 +1487,17 @@ impl<'a, Octs: Octets + ?Sized> MessageTsig<'a, Octs> {
     /// section, that it is the last record in this section. If that is true,
     /// returns the parsed TSIG records.
     fn from_message(msg: &'a Message<Octs>) -> Result<Self, TsigError> {
+        // A TSIG record is only allowed at the very end of the additional
+        // section. One in the answer or authority section is misplaced.
+        for section in [msg.answer(), msg.authority()] {
+            for record in section.map_err(|_| TsigError::ParseError)? {
+                let record = record.map_err(|_| TsigError::ParseError)?;
+                if record.rtype() == Rtype::TSIG {
+                    return Err(TsigError::Position);
+                }
+            }
+        }
+
         let mut section =
             msg.additional().map_err(|_| TsigError::ParseError)?;
 
